@@ -455,6 +455,41 @@ fn mutable_delivery(fam: &str, id: u64, rng: &mut Rng) -> String {
     }
 }
 
+
+/// Deterministic C07 corpus: FIRST arrival on a key not yet held, for each mutable kind and each path
+/// (paid upload, unpaid update, replication), of the valid content and of each kind of invalid content.
+pub fn first_arrival_corpus() -> Vec<String> {
+    let pay = format!("{};0.1.2", GOOD.join(","));
+    let mut cases: Vec<String> = vec![];
+    // registers (id 0, key 2): valid / bad owner signature / unpermitted writer / forged op signature /
+    // oversize entry / op addressed to another register
+    for c in ["R0.g.1v", "R0.g.-", "R0.b.1v", "R0.b.-", "R0.g.1v,2u", "R0.g.1v,2s", "R0.g.1v,2z", "R0.g.2f", "R0.a.1v,2u", "R0.a.1s", "R0.a.1z"] {
+        cases.push(format!("c regp 2 {c} {pay}"));
+        cases.push(format!("c reg 2 {c} -"));
+        cases.push(format!("r reg 2 {c} -"));
+    }
+    // scratchpads (owner 0, key 1): valid / signed by somebody else / unsigned / presented under another owner's key
+    for (rk, c) in [(1, "S0.3.v"), (1, "S0.3.w"), (1, "S0.3.n"), (4, "S0.3.v"), (4, "S0.3.w")] {
+        cases.push(format!("c padp {rk} {c} {pay}"));
+        cases.push(format!("c pad {rk} {c} -"));
+        cases.push(format!("r pad {rk} {c} -"));
+    }
+    // transactions (owner 0, key 1): valid / bad signature / foreign owner
+    for (rk, c) in [(1, "T0.1.v"), (1, "T0.1.i"), (4, "T0.1.v"), (1, "T1.2.v")] {
+        cases.push(format!("c txp {rk} {c} {pay}"));
+    }
+    for c in ["T0.1.v", "T0.1.i", "T1.2.v", "T1.2.i", "T0.1.i,1.2.v", "T0.1.v,1.2.v,0.3.i", "T-"] {
+        cases.push(format!("r tx 1 {c} -"));
+    }
+    let mut v = vec![];
+    for c in cases {
+        v.push("new -".to_string());
+        v.push(format!("deliver {c}"));
+        v.push("dump".to_string());
+    }
+    v
+}
+
 pub struct Gen {
     queue: VecDeque<String>,
     /// ids of validations begun in the current interleaved phase
@@ -509,6 +544,9 @@ impl Gen {
             _ => {
                 // C07: the K-f witness first, then n histories
                 for l in kf_witness() {
+                    g.queue.push_back(l);
+                }
+                for l in first_arrival_corpus() {
                     g.queue.push_back(l);
                 }
                 g.remaining_histories = n;
